@@ -493,6 +493,27 @@ pub fn oracle(case: &Case, ans: &dyn Fn(&str, usize) -> String, fails: &mut Fail
                 fails.fail(sink, "C07:edge-previous-walk-differs-from-reverse_traverse", format!("walk {:?} vs reverse_traverse {:?}", w, tr), case.t, p, "edge_walk_prev");
             }
         }
+        // single NodeEdge steps at EVERY node, entry nodes included (seed C07l: the step from the End edge of
+        // the last attribute went on to the first ordinary child): siblings are the siblings of the same
+        // category, children the ordinary children
+        {
+            let e = |tag: &str, q: &[usize]| format!("some {}:{}", tag, path_str(q));
+            let parent: Option<Vec<usize>> = if p.is_empty() { None } else { Some(p[..p.len() - 1].to_vec()) };
+            let sibs: Vec<Vec<usize>> = match &parent {
+                None => vec![p.to_vec()],
+                Some(pp) => sp.kid_paths(pp).into_iter().filter(|q| sp.cat(q) == sp.cat(p)).collect(),
+            };
+            let at = sibs.iter().position(|q| q.as_slice() == &p[..]).unwrap();
+            let nk = sp.normal_kids(p);
+            let next_start = match nk.first() { Some(k) => e("S", k), None => e("E", p) };
+            let prev_end = match nk.last() { Some(k) => e("E", k), None => e("S", p) };
+            let next_end = if let Some(q) = sibs.get(at + 1) { e("S", q) } else if let Some(pp) = &parent { e("E", pp) } else { "none".to_string() };
+            let prev_start = if at > 0 { e("E", &sibs[at - 1]) } else if let Some(pp) = &parent { e("S", pp) } else { "none".to_string() };
+            check("edge_next_start", next_start, "C07:edge-step-differs:next-of-start", fails, sink);
+            check("edge_prev_end", prev_end, "C07:edge-step-differs:previous-of-end", fails, sink);
+            check("edge_next_end", next_end, "C07:edge-step-differs:next-of-end", fails, sink);
+            check("edge_prev_start", prev_start, "C07:edge-step-differs:previous-of-start", fails, sink);
+        }
         // --- reverse preorder / all_following
         check("all_reverse_preorder", sp.fmt((0..=i).rev()), "C07:all_reverse_preorder-differs", fails, sink);
         check("reverse_preorder", sp.fmt((0..=i).rev().filter(|j| sp.normal[*j])), "C07:reverse_preorder-differs", fails, sink);
